@@ -28,6 +28,26 @@ class ToolError(Exception):
     pass
 
 
+class CodePanic(Exception):
+    """A harness process died because the CODE UNDER TEST panicked (panic location outside /verif): that is data about
+    the repository, not a tool problem - run_check turns it into a violation."""
+
+    def __init__(self, harness, where, message, inputs):
+        super().__init__(f"{harness}: panic at {where}: {message}")
+        self.harness, self.where, self.message, self.inputs = harness, where, message, inputs
+
+
+def _code_panic(harness, text, env):
+    """Raise CodePanic if `text` (output of a failed harness process) shows a panic located in the repository's sources."""
+    import re
+    for m in re.finditer(r"panicked at ([^\n:]+):(\d+)(?::\d+)?:?\n?([^\n]*)", text):
+        path = m.group(1)
+        if "/verif/" in path or "harness" in path or path.startswith("/rustc/") or "/.cargo/" in path:
+            continue
+        inputs = {k: v for k, v in (env or {}).items() if k.startswith("VERIF_")}
+        raise CodePanic(harness, f"{path}:{m.group(2)}", m.group(3).strip()[:300], inputs)
+
+
 def log(*a):
     print(*a, file=sys.stderr, flush=True)
 
@@ -301,6 +321,8 @@ def daemon_test(test_filter, env=None, timeout=900, build_timeout=1500):
     log(f"[cargo] {test_filter}: rc={p.returncode} {time.time() - t0:.1f}s")
     if p.returncode == 124:
         raise ToolError(f"harness {test_filter} timed out after {timeout}s")
+    if p.returncode != 0:
+        _code_panic(test_filter, p.stdout, env)
     return p.returncode, p.stdout
 
 
@@ -347,6 +369,8 @@ def lib_run(binname, args, timeout=900, env=None, stdin=None, profile="dev"):
     log(f"[lib] {binname}: rc={p.returncode} {time.time() - t0:.1f}s")
     if p.returncode == 124:
         raise ToolError(f"{binname} timed out after {timeout}s")
+    if p.returncode != 0:
+        _code_panic(binname, p.stderr, dict(env or {}, VERIF_ARGS=" ".join(str(a) for a in args)))
     return p.returncode, p.stdout, p.stderr
 
 
@@ -464,9 +488,21 @@ class Check:
 
 
 def run_check(pid, level, body):
+    os.makedirs(WORK, exist_ok=True)       # a fresh checkout has no work/ and a check may write an input file first
     c = Check(pid, level)
     try:
         body(c)
+    except CodePanic as ex:
+        # the code under test panicked in a place no harness step catches: a violation (every property's code must not
+        # panic on the inputs its check feeds it), with the harness input kept for the replay
+        keep = {}
+        for k, v in ex.inputs.items():
+            keep[k] = v
+            if os.path.isfile(str(v)) and os.path.getsize(v) < 400000:
+                keep[k + "_content"] = open(v, errors="replace").read()
+        c.violation("panic", {"harness": ex.harness, "panicked_at": ex.where, "message": ex.message},
+                    {"harness": ex.harness, "inputs": keep})
+        return c.finish()
     except ToolError as ex:
         return c.finish(tool_error=str(ex))
     except Exception as ex:  # harness bug = tool error, never a violation
